@@ -426,9 +426,14 @@ def _match(lb: Lab):
         if want is None:
             return True
         kind, info = pend
-        if kind in ("acq", "rel"):
-            return (kind, lb.lockname.get(info)) == want
-        return (kind, info) == want
+        got = (kind, lb.lockname.get(info)) if kind in ("acq", "rel") else (kind, info)
+        if got == want:
+            return True
+        if want[0] in ("acq", "rel") and got[0] not in ("acq", "rel"):
+            return "model_extra"          # the model locks here, the code does not (e.g. a removed lock)
+        if got[0] in ("acq", "rel") and want[0] not in ("acq", "rel"):
+            return "real_extra"           # the code locks here, the model does not (e.g. a mutant configuration)
+        return False
     return match
 
 
@@ -481,6 +486,7 @@ def replay_case(case):
     pol = sched.ModelReplay(vis, match=_match(lb))
     obs, run = execute([tuple(p) for p in case["mix"]], Alphabet(pol, lb), granularity="visible", keep_events=True)
     obs["followed"], obs["skipped"], obs["mismatch"] = pol.followed, pol.skipped, [list(map(repr, m)) for m in pol.mismatch[:5]]
+    obs["elided"], obs["extra"] = pol.elided, pol.extra
     obs["n_mismatch"] = len(pol.mismatch)
     obs["n_vis"] = len(vis)
     obs["unconsumed"] = len(vis) - pol.i
@@ -811,10 +817,10 @@ MIX3 = [
 
 # =============================================================================== run
 BUDGET = {
-    "quick": dict(pristine_cap=120, pristine_m=5, sim=120, sim3=50, single_cap=300, expand=24, expand_m=4, pct=40, rand=40, opcode=25, chunk=100,
+    "quick": dict(pristine_cap=90, pristine_m=5, sim=100, sim3=40, single_cap=220, expand=16, expand_m=4, pct=30, rand=30, opcode=20, chunk=80,
                   log_every=8, extra2=0, extra3=0),
-    "thorough": dict(pristine_cap=2500, pristine_m=12, sim=1500, sim3=600, single_cap=6000, expand=400, expand_m=6, pct=400, rand=400, opcode=200, chunk=260,
-                     log_every=25, extra2=24, extra3=8),
+    "thorough": dict(pristine_cap=400, pristine_m=8, sim=700, sim3=300, single_cap=1500, expand=200, expand_m=5, pct=200, rand=200,
+                     opcode=120, chunk=240, log_every=40, extra2=16, extra3=6),
 }
 
 
@@ -1002,7 +1008,8 @@ def _run(rep, tier, seed, B, rng, lb, pool, d):
     for c, o in zip(one.values(), pool.map(replay_case, list(one.values()))):
         rep.count(1)
         mproj, _ = model_project(c)
-        if not (o["clean"] and o["n_mismatch"] == 0 and o["skipped"] == 0 and o["unconsumed"] == 0):
+        if not (o["clean"] and o["n_mismatch"] == 0 and o["skipped"] == 0 and o["unconsumed"] == 0 and o["elided"] == 0
+                and o["extra"] == 0):
             rep.machinery(f"operation {c['mix'][0][0]} run alone does not perform the visible events of the model "
                           f"(model {[a for _, a in c['steps'] if a in LABEL_EVENT]}, real {o.get('visible_events')}): "
                           f"Threads.tla no longer decomposes the operation as the code does")
@@ -1052,7 +1059,8 @@ def _run(rep, tier, seed, B, rng, lb, pool, d):
     for c, o in zip(b2cases, b2res):
         rep.count(1)
         mi_key = tuple(tuple(p) for p in c["mix"])
-        faithful = o["clean"] and o["n_mismatch"] == 0 and o["skipped"] == 0 and o["unconsumed"] == 0
+        faithful = (o["clean"] and o["n_mismatch"] == 0 and o["skipped"] == 0 and o["unconsumed"] == 0
+                    and o["elided"] == 0 and o["extra"] == 0)
         is_ce = "expect_violation_in_model" in c
         exp_set = _expected_for(d, rep, [mi_key])[0]
         viols = judge(o, exp_set)
@@ -1073,7 +1081,7 @@ def _run(rep, tier, seed, B, rng, lb, pool, d):
             report_violation(rep, key, what + f" [model schedule: {c['origin']}]", _b2_case(c, o))
         if is_ce:
             rep.note(f"counter-example of {c['origin'].split('of ')[-1]} replayed on the real code: followed {o['followed']}/{o['n_vis']} "
-                     f"steps, skipped {o['skipped']}, real verdict: {[k['class'] for k, _ in viols] or 'no violation'}")
+                     f"steps, skipped {o['skipped']} (blocked), {o['extra']} real lock operations the variant lacks, real verdict: {[k['class'] for k, _ in viols] or 'no violation'}")
     mark("b2 replayed")
     rep.add("model_schedules_replayed", len(b2cases))
     rep.add("model_schedules_followed_exactly", n_faithful)
